@@ -137,8 +137,21 @@ class FaultVC(VC):
         for r in rs:
             if r.name.startswith(pre):
                 clause, _, path = r.name[len(pre):].partition("#")
-                r.name = f"C38.{clause}.{self.fn}" + (("#" + path) if path else "")
+                if ".inv_" in clause:  # loop invariant "only documented signals were absorbed so far": part of the catch obligation
+                    r.name = f"C38.catch.{self.fn}.{clause}"
+                    if r.status == "refuted" and r.witness is None:
+                        r.witness = self.concretize(None, None, None)
+                else:
+                    r.name = f"C38.{clause}.{self.fn}" + (("#" + path) if path else "")
         return rs
+
+    def absorbed_only_documented(self, st):
+        """loop invariant: every handler entered so far with a data exception catches documented classes only"""
+        for (src, classes, ln) in st.ghost.get("caught", ()):
+            if getattr(src, "data", False) and not within(classes, allowed_for(self.fn, src.site)):
+                self.offender = (src.site, classes, ln)
+                return z3.BoolVal(False)
+        return z3.BoolVal(True)
 
     # ---- common engine configuration ---------------------------------------------------------
     def configure(self, I):
@@ -465,7 +478,7 @@ class SelectTemplate(FaultVC):
     def configure_more(self, I):
         I.specs["Environment._load_template"] = data_callee("load")
         I.specs["Environment.join_path"] = A.abstract_fn("join_path", returns="obj")
-        I.loops[("Environment.select_template", 0)] = LoopSpec(lambda ctx: [], havoc={"name": "obj"}, name="names_loop")
+        I.loops[("Environment.select_template", 0)] = LoopSpec(lambda ctx: [self.absorbed_only_documented(ctx.st)], havoc={"name": "obj"}, name="names_loop")
 
     def setup(self, I, st):
         self.names = A.alist(st, "names", "obj")
@@ -694,7 +707,7 @@ class Faulty:
         return 1
 
     def __float__(self):
-        self._maybe("float", "int")
+        self._maybe("float")
         return 1.0
 
 
@@ -826,6 +839,10 @@ def native_call(fn, site, exc):
     if fn == "do_float":
         return (lambda: F.do_float(d)), d
     if fn == "do_attr":
+        if site.endswith(":property"):
+            class WithProperty:  # found by getattr_static, executed by environment.getattr
+                x = property(lambda self: d._maybe(site))
+            return (lambda: F.do_attr(env, WithProperty(), "x")), d
         return (lambda: F.do_attr(env, d, "x")), d
     if fn == "Environment.select_template":
         class L(jinja2.BaseLoader):
@@ -837,30 +854,49 @@ def native_call(fn, site, exc):
     raise KeyError(fn)
 
 
+def probe_class(name):
+    import builtins
+    c = PROBES.get(name) or getattr(builtins, name, None)
+    return c if isinstance(c, type) and issubclass(c, BaseException) else Boom
+
+
 def native_replay(w):
+    """Replay a witness on the real code: violated iff a data exception that is no documented signal does not come out
+    as the same object (or the engine state is changed / unusable afterwards)."""
     fn, site, name = w["function"], w.get("site"), w.get("exc") or "Boom"
     sites = [site] if site not in (None, "handled") else ["call"]
-    cls = PROBES.get(name, Boom)
-    exc = cls("probe") if cls not in (TemplateNotFound,) else cls("probe")
-    run, d = native_call(fn, sites[0], exc)
+    if fn == "do_attr" and site == "getattr":
+        sites = ["getattr", "getattr:property"]
+    last = (False, f"{fn}: nothing to run")
+    for s_ in sites:
+        last = native_replay_site(fn, s_, name)
+        if last[0]:
+            return last
+    return last
+
+
+def native_replay_site(fn, site, name):
+    cls = probe_class(name)
+    exc = cls("probe")
+    run, d = native_call(fn, site, exc)
     try:
         got = ("return", run())
     except BaseException as x:  # noqa: B902
         got = ("raise", x)
+    after = AFTER.pop(id(d), None)
     if not fired(d):
-        return (False, f"{fn}: the fault at site {sites[0]!r} was not reached natively")
-    allowed = allowed_for(fn, sites[0])
+        return (False, f"{fn}: the fault at site {site!r} was not reached natively")
+    allowed = allowed_for(fn, site.split(":")[0])
     if fn.startswith("Template."):
         allowed = allowed + (StopIteration,)  # inside a template the call goes through Context.call (its documented signal)
     documented = any(issubclass(cls, a) for a in allowed)
     same = got[0] == "raise" and got[1] is exc
     violated = not documented and not same
-    after = AFTER.pop(id(d), None)
     if after is not None:
         msg = after(got)
         if msg:
             return (True, f"{fn}: {msg}")
-    return (violated, f"{fn}: data raises {cls.__name__} at {sites[0]!r}: {'returns ' + repr(got[1])[:80] if got[0] == 'return' else 'raises ' + repr(got[1])[:80]}"
+    return (violated, f"{fn}: data raises {cls.__name__} at {site!r}: {'returns ' + repr(got[1])[:80] if got[0] == 'return' else 'raises ' + repr(got[1])[:80]}"
                       f"{' (the same object)' if same else ''}; documented signal: {documented}")
 
 
@@ -874,9 +910,9 @@ def native_matrix(tier, seed):
         bad = []
         n = 0
         for site in sites:
-            for pname in ("Boom", "BaseBoom", "RuntimeError", "ValueError", "KeyError", "AttributeError", "TypeError", "StopIteration", "IndexError", "OverflowError"):
+            for pname in ("Boom", "BaseBoom", "RuntimeError", "ValueError", "KeyError", "AttributeError", "TypeError", "StopIteration", "IndexError", "OverflowError", "ZeroDivisionError"):
                 n += 1
-                v, d = native_replay({"function": fn, "site": site, "exc": pname})
+                v, d = native_replay_site(fn, site, pname)
                 if v:
                     bad.append(({"function": fn, "site": site, "exc": pname}, d))
         nm = f"C38.native.{fn}"
@@ -897,7 +933,7 @@ NATIVE_SITES = {
     "SandboxedEnvironment.getattr": ["getattr", "getitem"], "SandboxedEnvironment.getitem": ["getitem", "getattr", "str"],
     "Context.call": ["call"], "test_sequence": ["len", "getattr"], "test_iterable": ["iter"],
     "sync_do_first": ["iter", "next"], "_min_or_max": ["iter", "next", "call"], "do_reverse": ["reversed", "iter"],
-    "do_random": ["len", "getitem"], "do_int": ["int", "float"], "do_float": ["float"], "do_attr": ["getattr"],
+    "do_random": ["len", "getitem"], "do_int": ["int", "float"], "do_float": ["float"], "do_attr": ["getattr", "getattr:property"],
     "Environment.select_template": ["load"],
 }
 
@@ -907,9 +943,9 @@ class NativeMatrix(Task):
     kind = "bounded"
     prop = "C38"
     name = "C38.native"
-    bound_text = ("fault injection on the real functions: every function under contract x every reachable data site x 10 exception "
+    bound_text = ("fault injection on the real functions: every function under contract x every reachable data site x 11 exception "
                   "classes (private Exception / BaseException subclasses, RuntimeError, ValueError, KeyError, AttributeError, TypeError, "
-                  "StopIteration, IndexError, OverflowError); entry points in sync and async mode followed by clean re-renders of the same "
+                  "StopIteration, IndexError, OverflowError, ZeroDivisionError); entry points in sync and async mode followed by clean re-renders of the same "
                   "and another template")
 
     def run(self, tier, seed):
